@@ -1,10 +1,10 @@
-\* the cache entry protocol, quick: 2 clients x 3 operations (+ use / close of their handles), 2 keys, capacity 1
+\* the cache entry protocol, quick: 2 clients x 2 operations (+ use / close of their handles), 2 keys, capacity 1
 SPECIFICATION Spec
 CONSTANTS
   Clients = {1, 2}
   Keys = {1, 2}
   Cap = 1
-  MaxOps = 3
+  MaxOps = 2
   MaxAcc = 6
   AllowTimeout = FALSE
 INVARIANTS RefsBalanced NoPanic NoUseAfterClose ClosedOnce ClosedOnlyUnreferenced LruSane NoLeak NoClosedCached
